@@ -148,6 +148,17 @@ BENIGN_FILES = [
 ]
 
 
+class _DropDebug(ast.NodeTransformer):
+    """Remove logging statements (`<x>.debug(...)`, `.verbose(...)`)."""
+
+    def visit_Expr(self, node: ast.Expr) -> Any:
+        v = node.value
+        if isinstance(v, ast.Call) and isinstance(v.func, ast.Attribute) and \
+                v.func.attr in ("debug", "verbose"):
+            return ast.copy_location(ast.Pass(), node)
+        return node
+
+
 def benign_variants() -> List[Tuple[str, Dict[str, str]]]:
     texts: Dict[str, str] = {}
     for rel in BENIGN_FILES:
@@ -158,7 +169,12 @@ def benign_variants() -> List[Tuple[str, Dict[str, str]]]:
     for rel, t in texts.items():
         tree = _RenameLocals().visit(ast.parse(t))
         renamed[rel] = ast.unparse(ast.fix_missing_locations(tree))
-    return [("unparse-roundtrip", unparsed), ("rename-locals", renamed)]
+    nodebug = {}
+    for rel, t in texts.items():
+        tree = _DropDebug().visit(ast.parse(t))
+        nodebug[rel] = ast.unparse(ast.fix_missing_locations(tree))
+    return [("unparse-roundtrip", unparsed), ("rename-locals", renamed),
+            ("drop-debug-logging", nodebug)]
 
 
 def _run_benign(args: Tuple[str, str, Dict[str, str]]) -> Dict[str, Any]:
